@@ -1,8 +1,91 @@
 package c15
 
 import (
+	"archive/zip"
+	"bytes"
+	"compress/gzip"
+	"fmt"
+	"image/png"
+	"io"
+
 	"github.com/wader/fq/internal/verif/core"
 )
 
+// selfTest cross-checks the hand-written writers against the standard library
+// readers (which verify header CRC16, CRC-32, ISIZE, chunk CRCs, Adler-32 and the
+// zip64 records). A failure is a harness error, never a verdict.
 func selfTest(r *core.Run) {
+	fail := func(f string, a ...any) {
+		panic("c15 self test of a hand-written writer failed: " + fmt.Sprintf(f, a...))
+	}
+	// gzip: every flag subset, two members
+	for flags := 0; flags < 32; flags += 2 {
+		f := gzBuild(&gzSpec{Writer: "hand", Level: 9, Flags: flags, Count: 2, Name: 2, Pay: 2})
+		exp := f.Exp.(*gzExp)
+		zr, err := gzip.NewReader(bytes.NewReader(f.Data))
+		if err != nil {
+			fail("gzip flags %#x: %v", flags, err)
+		}
+		m := exp.Members[0]
+		// compress/gzip decodes the name as Latin-1: compare the raw bytes
+		if flags&fNAME != 0 && !bytes.Equal(latin1Encode(zr.Name), []byte(m.Name)) {
+			fail("gzip flags %#x: name %q", flags, zr.Name)
+		}
+		if flags&fCOMMENT != 0 && zr.Comment != m.Comment {
+			fail("gzip flags %#x: comment %q", flags, zr.Comment)
+		}
+		if flags&fEXTRA != 0 && !bytes.Equal(zr.Extra, m.Extra) {
+			fail("gzip flags %#x: extra %x", flags, zr.Extra)
+		}
+		all, err := io.ReadAll(zr)
+		if err != nil || !bytes.Equal(all, append(append([]byte{}, m.Payload...), exp.Members[1].Payload...)) {
+			fail("gzip flags %#x: payload %v", flags, err)
+		}
+	}
+	// png: every colour type / depth of the hand writer, with all text chunks
+	for _, col := range []string{"gray", "gray_alpha", "rgb", "rgba", "palette"} {
+		depths := []int{8, 16}
+		if col == "palette" {
+			depths = []int{1, 2, 4, 8}
+		}
+		for _, d := range depths {
+			for size := range pngSizes {
+				f := pngBuild(&pngSpec{Writer: "hand", Size: size, Color: col, Depth: d, Text: 4})
+				im, err := png.Decode(bytes.NewReader(f.Data))
+				if err != nil {
+					fail("png %s/%d: %v", col, d, err)
+				}
+				if im.Bounds().Dx() != pngSizes[size][0] || im.Bounds().Dy() != pngSizes[size][1] {
+					fail("png %s/%d: bounds %v", col, d, im.Bounds())
+				}
+			}
+		}
+	}
+	// zip64
+	for _, method := range []int{0, 8} {
+		f := zipBuild(&zipSpec{Writer: "zip64", Method: method, Comment: true, Count: 3, Name: 1, Pay: 2})
+		exp := f.Exp.(*zipExp)
+		zr, err := zip.NewReader(bytes.NewReader(f.Data), int64(len(f.Data)))
+		if err != nil || len(zr.File) != 3 || zr.Comment != exp.Comment {
+			fail("zip64: %v", err)
+		}
+		for i, zf := range zr.File {
+			rc, err := zf.Open()
+			if err != nil {
+				fail("zip64 open: %v", err)
+			}
+			b, err := io.ReadAll(rc)
+			if err != nil || !bytes.Equal(b, exp.Members[i].Payload) || zf.Name != exp.Members[i].Name {
+				fail("zip64 entry %d: %v", i, err)
+			}
+		}
+	}
+}
+
+func latin1Encode(s string) []byte {
+	var b []byte
+	for _, r := range s {
+		b = append(b, byte(r))
+	}
+	return b
 }
